@@ -384,6 +384,9 @@ class Engine(object):
         if t == "bytes":
             s = ctx.fresh_str(name, is_bytes=True)
             return s
+        if t.startswith("bytes[") and t.endswith("]"):
+            n = int(t[6:-1])
+            return SStr(z3.IntVal(n), ctx.fresh(name + ".arr", ARR), z3.IntVal(0), is_bytes=True)
         if t == "char":
             return char_sstr(ctx.fresh(name))
         if t in ("None", "none"):
@@ -402,6 +405,11 @@ class Engine(object):
             return self.fresh_slist(ex, t[5:-1], name)
         if t == "emptydict":
             return PDict({})
+        if t == "file":
+            data = ctx.fresh_str(name + ".data", is_bytes=True)
+            pos = ctx.fresh(name + ".pos")
+            ctx.assume(z3.And(pos >= 0, pos <= data.length))
+            return FileObj(data, pos, origin="param:" + name)
         if t == "intset":
             ctx.nfresh += 1
             return SIntSet(ctx.nfresh)
@@ -467,13 +475,82 @@ class Engine(object):
     list_sort = _unsup("list.sort on symbolic elements")
     int_of_str = _unsup("int() of a symbolic string")
     str_of_int = _unsup("str() of a symbolic int")
-    math_log = _unsup("math.log")
-    a2b_hex = _unsup("a2b_hex of symbolic string")
-    struct_pack = _unsup("struct.pack")
+    def math_log(self, ex, args, line):
+        """math.log(x, b) is NOT modelled: assumed contract A_log, validated by the run-time battery 'log_assumption':
+        for b in {2, 128} and 1 <= x < 2**28:  b**k <= x < b**(k+1)  ==>  k <= log(x, b) < k + 1"""
+        if all(isinstance(a, (int, float)) for a in args):
+            import math
+            try:
+                return math.log(*args)
+            except (ValueError, ZeroDivisionError):
+                raise Raised(ValueError, line, implicit=True)
+        if len(args) != 2 or not isinstance(args[1], int) or args[1] not in (2, 128):
+            raise Unsupported("math.log form")
+        b = args[1]
+        x = zint(args[0])
+        if not ex.ctx.branch(z3.And(x >= 1, x < 2 ** 28)):
+            raise Unsupported("math.log outside the domain of the assumed contract (1 <= x < 2**28)")
+        r = ex.ctx.fresh("log", REAL)
+        k = 0
+        while b ** k < 2 ** 28:
+            ex.ctx.assume(z3.Implies(z3.And(x >= b ** k, x < b ** (k + 1)), z3.And(r >= k, r < k + 1)))
+            k += 1
+        ex.ctx.tags.add("assumed contract A_log: floor(math.log(x, %d)) is the exact integer logarithm for 1 <= x < 2**28 "
+                        "(validated at run time by battery log_assumption, never proved)" % b)
+        return SReal(r)
+
+    def a2b_hex(self, ex, v, line):
+        if isinstance(v, (str, bytes)):
+            import binascii
+            try:
+                return binascii.a2b_hex(v)
+            except Exception:
+                raise Raised(ValueError, line, implicit=True)
+        if isinstance(v, HexStr):
+            if v.width % 2:
+                raise Unsupported("a2b_hex of an odd-width hex text")
+            n = v.width // 2
+            inr = z3.And(v.value >= 0, v.value < 16 ** v.width)
+            if not ex.ctx.branch(inr):
+                # '%0Nx' grows beyond N digits (or prints a sign): a2b_hex then fails or yields more bytes
+                raise Unsupported("hex text wider than its field")
+            arr = z3.K(INT, z3.IntVal(0))
+            for i in range(n):
+                arr = z3.Store(arr, i, (v.value / (256 ** (n - 1 - i))) % 256)
+            ex.ctx.tags.add("builtin:'%0Nx' % int followed by binascii.a2b_hex (big-endian bytes)")
+            return SStr(z3.IntVal(n), arr, z3.IntVal(0), is_bytes=True)
+        raise Unsupported("a2b_hex of %r" % (v,))
+
+    def struct_pack(self, ex, args, line):
+        fmt = args[0]
+        if isinstance(fmt, SStr):
+            fmt = try_concrete_str(fmt)
+        if not isinstance(fmt, str) or not fmt.endswith("B") or not fmt[:-1].isdigit():
+            raise Unsupported("struct.pack format %r" % (fmt,))
+        n = int(fmt[:-1])
+        vals = list(args[1:])
+        if len(vals) != n:
+            raise Raised(self.module("struct").error, line, implicit=True)
+        arr = z3.K(INT, z3.IntVal(0))
+        for i, x in enumerate(vals):
+            e = zint(x)
+            if not ex.ctx.branch(z3.And(e >= 0, e <= 255)):
+                raise Raised(self.module("struct").error, line, implicit=True)
+            arr = z3.Store(arr, i, e)
+        return SStr(z3.IntVal(n), arr, z3.IntVal(0), is_bytes=True)
     deepcopy = _unsup("deepcopy")
     str_join = _unsup("str.join of symbolic strings")
 
     def percent_format(self, ex, fmt, tup):
+        import re
+        m = re.match(r"^%0(\d+)x$", fmt)
+        if m and len(tup) == 1 and isinstance(tup[0], (SInt,)):
+            return HexStr(tup[0].e, int(m.group(1)))
+        m = re.match(r"^%sB$", fmt)
+        if m and len(tup) == 1:
+            cv = ex.ctx.concretize(zint(tup[0])) if not isinstance(tup[0], int) else tup[0]
+            if cv is not None:
+                return "%dB" % cv
         return None
 
     def str_method(self, ex, s, name, args, kwargs, line):
@@ -638,7 +715,11 @@ class Engine(object):
         for (nm, e) in self.norm_named(c.get("ensures"), "post"):
             if nm in skip or "*" in skip and not nm.startswith(("one-octave", "twelve-notes", "begins-on")):
                 continue   # assuming less about a callee is always sound
-            ex.ctx.assume(ex.spec_bool(e, env))
+            ex.ctx.assume_mode = True
+            try:
+                ex.ctx.assume(ex.spec_bool(e, env))
+            finally:
+                ex.ctx.assume_mode = False
         return res
 
     def havoc_path(self, ex, env, path, t):
@@ -681,7 +762,7 @@ class Engine(object):
                 return True
             if a.startswith("=") and v is not None:
                 return True
-            if a == "bytes" and is_strlike(v):
+            if a.startswith("bytes") and is_strlike(v):
                 return True
             if a in ("None", "none") and v is None:
                 return True
@@ -702,6 +783,8 @@ class Engine(object):
             if a == "intset" and isinstance(v, (SIntSet, tuple, PList, PSet)):
                 return True
             if a == "emptydict" and isinstance(v, PDict) and not v.d:
+                return True
+            if a == "file" and isinstance(v, FileObj):
                 return True
             if a in self.classes and isinstance(v, Obj):
                 modname, _, cls = self.classes[a]["class"].rpartition(".")
@@ -774,6 +857,9 @@ class Engine(object):
                     ctx.assume(ex.spec_bool(split_expr_s, penv))
                 for nm, expr in (contract.get("old") or {}).items():
                     penv[nm] = self.snapshot(ex.spec_eval(expr, penv))
+                memo = {}
+                pre_env = dict((k, self.deep_snapshot(v, memo)) for k, v in penv.items())
+                ex.pre_env = pre_env
                 ctx.writes = []
                 ex.frames.append(Frame(fref, env, fref.module, closure=[]))
                 try:
@@ -825,6 +911,40 @@ class Engine(object):
         }
         return out
 
+    def deep_snapshot(self, v, memo=None):
+        """copy of the mutable part of a value graph (pre-state for raises / case conditions)"""
+        memo = {} if memo is None else memo
+        if id(v) in memo:
+            return memo[id(v)]
+        if isinstance(v, Obj):
+            o = Obj(v.cls, {}, v.origin)
+            memo[id(v)] = o
+            for k, x in v.fields.items():
+                o.fields[k] = self.deep_snapshot(x, memo)
+            return o
+        if isinstance(v, FileObj):
+            o = FileObj(v.data, v.pos, v.origin)
+        elif isinstance(v, PList):
+            o = PList([], v.origin)
+            memo[id(v)] = o
+            o.items = [self.deep_snapshot(x, memo) for x in v.items]
+            return o
+        elif isinstance(v, PDict):
+            o = PDict({}, v.origin)
+            memo[id(v)] = o
+            o.d = dict((k, self.deep_snapshot(x, memo)) for k, x in v.d.items())
+            return o
+        elif isinstance(v, SList):
+            o = SList(v.length, v.arr, v.kind, v.origin)
+        elif isinstance(v, RepList):
+            o = RepList(v.base, v.count, v.tail, v.origin, head=v.head)
+        elif isinstance(v, tuple):
+            return tuple(self.deep_snapshot(x, memo) for x in v)
+        else:
+            return v
+        memo[id(v)] = o
+        return o
+
     def snapshot(self, v):
         if isinstance(v, SList):
             return SList(v.length, v.arr, v.kind)
@@ -860,16 +980,17 @@ class Engine(object):
         # ---- frame
         allowed = set(contract.get("modifies") or [])
         bad = [w for w in ctx.writes if w not in allowed and not any(w.startswith(a + ".") for a in allowed)]
+        pre_env = getattr(ex, "pre_env", penv)
         if kind == "return":
             for ename, cond in raises.items():
-                c = ex.spec_bool(cond, penv, goal=True)
+                c = ex.spec_bool(cond, pre_env, goal=True)
                 ctx.emit("raises", "raises/%s-not-missed" % ename, z3.Not(c), None)
             cases = contract.get("cases")
             posts = contract
             if cases:
                 whens = []
                 for i, case in enumerate(cases):
-                    w = ex.spec_bool(case["when"], penv) if case.get("when") else z3.BoolVal(True)
+                    w = ex.spec_bool(case["when"], pre_env) if case.get("when") else z3.BoolVal(True)
                     whens.append(w)
                 ctx.emit("post", "post/cases-complete", z3.Or(whens), None)
                 for i, case in enumerate(cases):
@@ -897,7 +1018,7 @@ class Engine(object):
                 ctx.emit("raises", "raises/no-unexpected-exception", False, r.line,
                          note="%s escapes at line %s %s" % (name, r.line, r.note))
             else:
-                c = ex.spec_bool(matched[1], penv, goal=True)
+                c = ex.spec_bool(matched[1], pre_env, goal=True)
                 ctx.emit("raises", "raises/%s-only-when-specified" % matched[0], c, r.line)
                 if bad:
                     ctx.emit("frame", "frame/writes-outside-modifies", False, None,
